@@ -88,6 +88,9 @@ func (e *Engine) verifyFunc(key string, against *FuncContract, prefix string) (r
 	}
 	x := e.newExec(name, fn, fc)
 	res.Script = x.sc
+	if x.flags["locks"] {
+		x.heapBase(heldKey, heldSort)
+	}
 	defer func() {
 		if r := recover(); r != nil {
 			if u, ok := r.(unsupported); ok {
